@@ -49,6 +49,9 @@ var scenarios = []struct{ name, text string }{
 	// (recovered by emerge) or reports the ambiguity, depending on the order of its shuffled sets - the known finding
 	// dep-lalr-crash-depends-on-order
 	{"rule-without-sentences", "grammar ns ;\nstart = start | \"a\" \"b\" ;\nx = x ;\n"},
+	// a specification that fails in two stages of the generator (conflicting definitions AND an unresolved LALR(1)
+	// conflict): both reports, in the order of the stages
+	{"two-stages-fail", "grammar ts ;\nID = /[a-z]+/ ;\nKEY = /[a-c]+/ ;\nstart = e ;\ne = e \"+\" e | ID | KEY ;\n"},
 	// a literal spelled like a non-terminal: alternatives that differ only in the kind of a same-spelled symbol
 	{"look-alike-symbols", "grammar ls ;\nNUM = /[0-9]+/ ;\nstart = value ;\nvalue = NUM | null | \"null\" | \"value\" | \"[\" value \"]\" ;\nnull = \"nil\" | \"none\" | nil ;\nnil = \"null\" \"nil\" ;\n"},
 	{"valid-with-operators", "grammar ops ;\nID = $ID ;\nWS = $WS ;\n@left \"*\" ;\n@left \"+\" ;\nstart = { stmt } ;\nstmt = ID \"=\" e \";\" ;\ne = e \"+\" e | e \"*\" e | [ \"-\" ] ID | \"(\" e \")\" ;\n"},
@@ -86,7 +89,31 @@ var scratch string
 var runNo int
 
 // execute runs the pipeline once and returns a digest of everything observable plus a readable rendering.
-func execute(text string) (string, string) {
+// execute runs the pipeline once as a thread of the cooperative scheduler: goroutines the code under test starts (its
+// go statements, channel operations and package sync are routed to rt by the instrumenter) join that scheduler, so the
+// explorer owns their interleaving as it owns iteration orders.
+func execute(text string) (digest, full string) {
+	panics, capped := rt.RunThreads([]func(){func() { digest, full = executeBody(text) }})
+	extra := ""
+	for k, p := range panics {
+		if p != nil {
+			extra += fmt.Sprintf("GOROUTINE %d PANICS %v\n", k, p)
+		}
+	}
+	if rt.Deadlocked {
+		extra += "DEADLOCK: goroutines of the tool wait for each other\n"
+	}
+	if capped {
+		extra += "HORIZON reached\n"
+	}
+	if extra != "" {
+		full += extra
+		digest = fmt.Sprintf("%x", sha256.Sum256([]byte(full)))
+	}
+	return digest, full
+}
+
+func executeBody(text string) (string, string) {
 	runNo++
 	dir := filepath.Join(scratch, fmt.Sprintf("r%d", runNo%8))
 	_ = os.RemoveAll(dir)
@@ -205,7 +232,7 @@ type replayInput struct {
 // inRepo: the point lies in /repo, or lies in the dependency but was reached directly from a line of /repo
 // (the dependency's shuffled iteration order leaking into emerge's own loops).
 func inRepo(site string) bool {
-	return strings.HasPrefix(site, "internal/") || strings.HasPrefix(site, "cmd/") || strings.Contains(site, "@internal/")
+	return site == "sched" || strings.HasPrefix(site, "internal/") || strings.HasPrefix(site, "cmd/") || strings.Contains(site, "@internal/")
 }
 
 func main() {
@@ -247,7 +274,7 @@ func main() {
 		freshProcesses(r)
 	}
 	if r.Fork(16) {
-		r.Set("rule", "19 scenarios (every map on the path has >= 2 entries); one execution = spec.Parse + golang.Generate into a fresh directory with a recording UI; every range over a Go map in /repo and in the dependency and every shuffle of the dependency is a choice point; all executions with at most d non-default orders are enumerated (quick: d=1 over all /repo points and the first 3 occurrences of every dependency site; thorough: d=2 over /repo points, d=2 with the second deviation at a map range of /repo, d=1 over the first 12 occurrences of every other dependency site; dependency points reached directly from a line of /repo count as /repo points); states = distinct observations (must be 1 per scenario), transitions = executions")
+		r.Set("rule", "20 scenarios (every map on the path has >= 2 entries); one execution = spec.Parse + golang.Generate into a fresh directory with a recording UI; every range over a Go map in /repo and in the dependency, every shuffle of the dependency and - should the tool start goroutines - every scheduling decision at a goroutine start, channel operation, lock, unlock or wait of /repo is a choice point; all executions with at most d non-default orders are enumerated (quick: d=1 over all /repo points and the first 3 occurrences of every dependency site; thorough: d=2 over /repo points, d=2 with the second deviation at a map range of /repo, d=1 over the first 12 occurrences of every other dependency site; dependency points reached directly from a line of /repo count as /repo points); states = distinct observations (must be 1 per scenario), transitions = executions")
 		r.Set("evaluations", r.Get("executions"))
 		r.Set("transitions", r.Get("executions"))
 		r.Set("traces_validated_against_impl", r.Get("executions"))
@@ -259,6 +286,9 @@ func main() {
 	shard, nshards := r.ShardInfo()
 	r.Set("exhaustive", true)
 	for si, sc := range scenarios {
+		if only := os.Getenv("VERIF_C15_ONLY"); only != "" && only != sc.name {
+			continue
+		}
 		depOcc := 3
 		if !r.Quick() {
 			depOcc = 12
@@ -326,14 +356,20 @@ func main() {
 					if dev >= 0 {
 						site = points[dev].Site
 					}
-					r.Report(classify(sc.text, baseFull, obs), fmt.Sprintf("scenario %s: observable output depends on the iteration order at %s (choice %v); %s", sc.name, site, trim(choices), firstDiff(baseFull, obs)),
+					what := "the iteration order at " + site
+					if site == "sched" {
+						what = "the order in which the goroutines of the tool run (a scheduling decision at a goroutine start, channel operation, lock or wait)"
+					}
+					r.Report(classify(sc.text, baseFull, obs), fmt.Sprintf("scenario %s: observable output depends on %s (choice %v); %s", sc.name, what, trim(choices), firstDiff(baseFull, obs)),
 						replayInput{Scenario: sc.name, Choices: trim(choices)})
 				}
 			}
 		}
 		x.Shard, x.NShards = shard, nshards
 		// a second deviation only at points that lie in /repo itself (map ranges), not at attributed dependency points
-		x.SecondLevel = func(site string) bool { return strings.HasPrefix(site, "internal/") || strings.HasPrefix(site, "cmd/") }
+		x.SecondLevel = func(site string) bool {
+			return site == "sched" || strings.HasPrefix(site, "internal/") || strings.HasPrefix(site, "cmd/")
+		}
 		x.Explore()
 		if x.Capped {
 			r.Set("exhaustive", false)
